@@ -299,14 +299,22 @@ def cmd_selftest_determinism(args):
             for k in d:
                 ref[1].setdefault(k, d[k])
         report["properties"][prop] = {"variants": [v[0] for v in variants], "digest_comparisons": compared,
-                                      "diverged": diverged[:10]}
+                                      "diverged": diverged[:10], "runs": n}
         print("determinism %s: %d digest comparisons across %s, diverged=%d" %
               (prop, compared, [v[0] for v in variants], len(diverged)))
         if diverged:
             report["ok"] = False
     report["wall_s"] = round(_real_time.monotonic() - t0, 1)
     os.makedirs(os.path.join(VERIF_DIR, "selftest"), exist_ok=True)
-    with open(os.path.join(VERIF_DIR, "selftest", "determinism_last.json"), "w") as f:
+    p = os.path.join(VERIF_DIR, "selftest", "determinism_last.json")
+    if os.path.exists(p):        # keep the last result of properties not re-run this time
+        try:
+            old = json.load(open(p))
+            for k, v in old.get("properties", {}).items():
+                report["properties"].setdefault(k, v)
+        except Exception:
+            pass
+    with open(p, "w") as f:
         json.dump(report, f, indent=1, sort_keys=True)
     if not report["ok"]:
         print("HARNESS-ERROR nondeterminism detected")
